@@ -247,7 +247,7 @@ func TestKnown(t *testing.T)  { kit.RunKnown(t) }
 func TestReplay(t *testing.T) { kit.RunReplay(t) }
 
 func TestURLAttack(t *testing.T) {
-	kit.Rapid(t, "attack", 250000, 3000000, func(t *rapid.T) {
+	kit.Rapid(t, "attack", 250000, 12000000, func(t *rapid.T) {
 		cfg := gen.DrawConfig(t, gen.ConfigOpts{SafeOnly: true})
 		run(t, cfg, document(t), "attack")
 	})
@@ -255,7 +255,7 @@ func TestURLAttack(t *testing.T) {
 
 func TestURLSoup(t *testing.T) {
 	p := urlSoup
-	kit.Rapid(t, "soup", 80000, 1000000, func(t *rapid.T) {
+	kit.Rapid(t, "soup", 80000, 4000000, func(t *rapid.T) {
 		cfg := gen.DrawConfig(t, gen.ConfigOpts{SafeOnly: true})
 		run(t, cfg, gen.Soup(t, p, kit.Pick(30, 60), "s"), "soup")
 	})
